@@ -13,13 +13,20 @@ use vrp_core::prelude::*;
 use vrp_core::rosomaxa::evolution::objectives::dominance_order;
 use vrp_core::rosomaxa::prelude::HeuristicObjective;
 
+/// the numbers of a case are integers times a unit: 1, or a unit so small that all of them lie within f64::EPSILON of each other
+/// (the order laws do not depend on the unit; the small unit is a power of two, so sums and differences of multiples are exact)
+fn unit() -> f64 {
+    static UNIT: std::sync::OnceLock<f64> = std::sync::OnceLock::new();
+    *UNIT.get_or_init(|| std::env::var("VH_ORDER_UNIT").ok().and_then(|u| u.parse().ok()).unwrap_or(1.))
+}
+
 fn num(v: &Value) -> f64 {
     match v["k"].as_str().unwrap() {
         "pinf" => f64::INFINITY,
         "ninf" => f64::NEG_INFINITY,
         _ => {
             let x = v["v"].as_i64().unwrap() as f64;
-            if x == 0. && v["nz"].as_bool().unwrap() { -0.0 } else { x }
+            if x == 0. && v["nz"].as_bool().unwrap() { -0.0 } else { x * unit() }
         }
     }
 }
@@ -29,10 +36,10 @@ fn enc(x: f64) -> Value {
         json!({"v": 0, "nz": false, "k": "pinf"})
     } else if x == f64::NEG_INFINITY {
         json!({"v": 0, "nz": false, "k": "ninf"})
-    } else if x.is_nan() || x.fract() != 0. {
+    } else if x.is_nan() || (x / unit()).fract() != 0. {
         json!({"v": 0, "nz": false, "k": format!("other:{x}")})
     } else {
-        json!({"v": x as i64, "nz": x == 0. && x.is_sign_negative(), "k": "fin"})
+        json!({"v": (x / unit()) as i64, "nz": x == 0. && x.is_sign_negative(), "k": "fin"})
     }
 }
 
